@@ -150,9 +150,15 @@ def run(ctx):
     ctx.trusted += ["scripted affine tube solver (duck-typed setup_tube/init_state/solve/dump_state)",
                     "networkx contraction/components and numpy.linalg.solve are not modelled: their result is certified against the "
                     "un-reduced equilibrium; uniqueness of that equilibrium is validated by the direct-stiffness oracle, not proved"]
+    from harness import translators as _tr
+    ctx.trusted += ["translator harness/translators/springnet.py (edge assembly as a Gallina function; residual selection and topology as source text)"]
+    _tr.import_all()
+    ctx.gen("SpringNet", _tr.REGISTRY["SpringNet"])
     ctx.prove("C04")
+    ctx.prove("C04_source")
     if ctx.tier == "thorough":
         ctx.coqchk("C04")
+        ctx.coqchk("C04_source")
     rng = ctx.rng
     cases = []
     maxp, maxt = ctx.budget(2, 3), ctx.budget(2, 3)
